@@ -6,5 +6,6 @@ INVARIANT ConservativeIfOK
 INVARIANT AllExaminable
 INVARIANT AddedWellTyped
 INVARIANT OnlyOKAdded
+INVARIANT UniqueGround
 POSTCONDITION Post
 CHECK_DEADLOCK FALSE
